@@ -75,8 +75,9 @@ def gen_case(rng, i, tier):
     # options at definition level and at call level (real axis names in mappings)
     defn = {"boundary": gen.random_spelling(rng, axn, gen.RULES, p_none=0.4),
             "fill_value": gen.random_spelling(rng, axn, FILLS, p_none=0.4, allow_partial=True)}
+    # call-time values include the falsy ones (0, 0.0): "call-time values override" must not depend on truthiness
     call = {"boundary": gen.random_spelling(rng, axn, gen.RULES, p_none=0.5),
-            "fill_value": gen.random_spelling(rng, axn, FILLS, p_none=0.5)}
+            "fill_value": gen.random_spelling(rng, axn, FILLS + [0, 0.0, 0], p_none=0.4)}
     mode = rng.choice(["apply", "decorator", "hints", "define-then-override"])
     call_bw = None
     if mode == "define-then-override" and rng.random() < 0.5 and common:
